@@ -24,8 +24,9 @@ def schema_path():
 
 
 def write(prop, doc):
-    os.makedirs(os.path.join(VERIF, 'evidence'), exist_ok=True)
-    path = os.path.join(VERIF, 'evidence', f'{prop}.json')
+    out = os.environ.get('VERIF_OUT', VERIF)
+    os.makedirs(os.path.join(out, 'evidence'), exist_ok=True)
+    path = os.path.join(out, 'evidence', f'{prop}.json')
     tmp = path + '.tmp'
     with open(tmp, 'w') as fh:
         json.dump(doc, fh, indent=1, sort_keys=True, default=str)
